@@ -71,7 +71,6 @@
 EXPORT int vfprintf_s(FILE *restrict stream, const char *restrict fmt,
                       va_list ap) {
     int ret;
-    const char *p;
     out_fct_wrap_type wrap;
 
     if (unlikely(stream == NULL)) {
@@ -91,13 +90,10 @@ EXPORT int vfprintf_s(FILE *restrict stream, const char *restrict fmt,
                                            ESNULLP);
         return -(ESNULLP);
     }
-    if (unlikely((p = strstr(fmt, "%n")))) {
-        /* at the beginning or if inside, not %%n */
-        if ((p - fmt == 0) || *(p - 1) != '%') {
-            invoke_safe_str_constraint_handler("vfprintf_s: illegal %n", NULL,
-                                               EINVAL);
-            return -(EINVAL);
-        }
+    if (unlikely(safec_fmt_has_n(fmt, 0))) {
+        invoke_safe_str_constraint_handler("vfprintf_s: illegal %n", NULL,
+                                           EINVAL);
+        return -(EINVAL);
     }
 
     errno = 0;
